@@ -74,15 +74,16 @@ Definition reply_shape (c : scan_class) (raw : bool) (r : range) (f : bytes) : b
   end.
 
 (* an unfragmented well-formed frame: a byte string; Ethernet II or raw IPv4; an IPv4 packet has version
-   4, IHL >= 5, header <= total length <= captured length, MF = 0 and offset 0, TLV-well-formed options,
+   4, IHL >= 5, header <= total length <= captured length (a zero total length, as segmentation
+   offload leaves it, counts as the captured length), MF = 0 and offset 0, TLV-well-formed options,
    and, when it carries TCP or ICMP, a complete transport header (TCP: data offset >= 5 inside the
    segment, TLV-well-formed options); an ARP packet is Ethernet/IPv4 ARP (sizes 6/4, 28 bytes).
    Frames of other protocols (IPv6, VLAN, ...) are admitted as they are. *)
 Definition wf_ip (p : bytes) : bool :=
-  let tl := be16 (byte_at 2 p) (byte_at 3 p) in
-  (20 <=? Zlength p) && (byte_at 0 p / 16 =? 4) && (5 <=? ip_ihl p) && (ip_ihl p * 4 <=? tl)
-  && (tl <=? Zlength p) && ip_unfragmented p
-  && match ip_opts 41 (take (ip_ihl p * 4 - 20) (drop 20 p)) with None => true | Some _ => false end
+  let d1 := if ip_total p <? Zlength p then take (ip_total p) p else p in
+  (20 <=? Zlength p) && (byte_at 0 p / 16 =? 4) && (5 <=? ip_ihl p) && (ip_ihl p * 4 <=? ip_total p)
+  && (ip_total p <=? Zlength p) && ip_unfragmented p
+  && match ip_opts 41 (take (ip_ihl p * 4 - 20) (drop 20 d1)) with None => true | Some _ => false end
   && (if byte_at 9 p =? 6
       then tcp_header (ip_body p)
            && match tcp_opts 41 (take ((byte_at 12 (ip_body p) / 16) mod 16 * 4 - 20) (drop 20 (ip_body p)))
